@@ -171,8 +171,13 @@ def run(repo: Repo, chk: Check, thorough: bool = False) -> None:
     parts = [norm(v.value) for j in fs for v in j.values if isinstance(v, ast.FormattedValue)]
     lnv = {t.id for n in rp_.walk() if isinstance(n, (ast.Assign, ast.AugAssign, ast.AnnAssign))
            for t in (n.targets if isinstance(n, ast.Assign) else [n.target]) if isinstance(t, ast.Name)}
-    ok = 'self.description' in parts and any(p_ in lnv for p_ in parts)
-    chk.ob('R16.4', f'{M}.Documentable.report :: message is <own file>:<line>: <text>', ok, "f'{self.description}:{linenumber}: {descr}'" if ok else
+    # the file part: self.description, or a local that only ever holds the description of an object (its own, or the module a docstring was assigned in)
+    desc_locals = {t.id for n in rp_.walk() if isinstance(n, ast.Assign) and isinstance(n.value, ast.Attribute) and n.value.attr == 'description'
+                   for t in n.targets if isinstance(t, ast.Name)}
+    desc_locals = {d_ for d_ in desc_locals if all(isinstance(n.value, ast.Attribute) and n.value.attr == 'description' for n in rp_.walk()
+                                                   if isinstance(n, ast.Assign) and any(isinstance(t, ast.Name) and t.id == d_ for t in n.targets))}
+    ok = ('self.description' in parts or any(p_ in desc_locals for p_ in parts)) and any(p_ in lnv - desc_locals for p_ in parts)
+    chk.ob('R16.4', f'{M}.Documentable.report :: message is <file>:<line>: <text>', ok, "f'{self.description}:{linenumber}: {descr}'" if ok else
            f'the message is built from {parts}', rp_.loc)
     # a field body re-parsed as a type keeps the line of its field (link problems inside it are reported from that line)
     n_pt = 0
@@ -339,3 +344,18 @@ def run(repo: Repo, chk: Check, thorough: bool = False) -> None:
            'self.parsed_docstring = None' if resets else
            'text and line are replaced, the parsed form is kept: for an attribute that is documented both by an `@ivar` field of its class and by an inline docstring the field '
            'is rendered, and its problems are reported at <line of the inline docstring> + <offset inside the class docstring>', sd.loc)
+
+    # ------------------------------------------------------------------ R16.4 (addition, restating "names the file that contains it")
+    # `from pkg.impl import f; f.__doc__ = """..."""` in pkg/docs.py: the text of the docstring is in docs.py, the object lives in impl.py.  A problem of that
+    # docstring is reported with the line inside docs.py (F48) - the FILE has to be docs.py as well.  (This rule used to say "the object's own source
+    # file", which is what the code did.)  _handleDocstringUpdate has to record the module it is visiting on the object, and report() has to use it
+    du = repo.func('pydoctor.astbuilder.ModuleVistor._handleDocstringUpdate')
+    recs = [n for n in du.walk() if isinstance(n, ast.Assign) and any(isinstance(t, ast.Attribute) and isinstance(t.value, ast.Name) for t in n.targets) and
+            any(isinstance(x, ast.Attribute) and x.attr in ('currentMod', 'module') for x in ast.walk(n.value))]
+    rp = repo.func('pydoctor.model.Documentable.report')
+    attrs = {t.attr for n in recs for t in n.targets if isinstance(t, ast.Attribute)}
+    used = any(isinstance(x, ast.Attribute) and x.attr in attrs and dotted(x.value) == 'self' for x in rp.walk())
+    chk.ob('R16.4', 'pydoctor.astbuilder.ModuleVistor._handleDocstringUpdate :: a docstring assigned from another module is reported against that module\'s file', bool(recs) and used,
+           f'recorded in {sorted(attrs)} and read by Documentable.report' if recs and used else
+           'the text and its line are stored on the object, the file is not: a problem in `f.__doc__ = """... L{bad_one} ..."""` written in pkg/docs.py is reported as '
+           '`pkg/impl.py:5`, a file that has 5 lines and no such text', du.loc)
